@@ -62,6 +62,16 @@ class BitArr(list):
     endian = "big"
 
 
+class StructObj:
+    """struct.Struct(fmt): a compiled format — its methods are the struct module's functions with the format bound"""
+
+    def __init__(self, fmt):
+        self.format = fmt
+
+    def __repr__(self):
+        return f"Struct({self.format!r})"
+
+
 class GenList(list):
     """the elements a folded generator expression produces (so that next() on it can be told from next() on a list)"""
 
@@ -545,6 +555,14 @@ SAFE = {
 MAX_STEPS = 2_000_000
 
 
+class _Break(Exception):
+    pass
+
+
+class _Continue(Exception):
+    pass
+
+
 class _Return(Exception):
     def __init__(self, v):
         self.v = v
@@ -564,6 +582,9 @@ class Folder:
             return loc[id_]
         if self.cls is not None and id_ in self.cls.assigns:
             return self.repo.class_const(self.cls, id_)
+        if self.cls is not None and id_ in self.cls.methods and self.cls.methods[id_].kind == "method":
+            # a class-level table may name the plain functions defined earlier in the class body (dispatch tables)
+            return FuncRef(self.cls.methods[id_])
         r = self.repo.resolve(self.module, id_)
         if isinstance(r, ClassInfo):
             return ClassRef(r)
@@ -878,6 +899,8 @@ class Folder:
         raise Unfoldable(f"call {fn_txt}")
 
     def external_call(self, name: str, args, kw):
+        if name == "struct.Struct" and len(args) == 1 and isinstance(args[0], str):
+            return StructObj(args[0])
         if name == "types.MappingProxyType" and len(args) == 1 and isinstance(args[0], dict):
             return args[0]   # read-only view of a constant table: folded as the table
         if name in ("bitarray.frozenbitarray", "frozenbitarray") and args:
@@ -1069,9 +1092,37 @@ class Folder:
             elif isinstance(st, ast.If):
                 self.exec_block(st.body if self.ev(st.test, loc) else st.orelse, loc)
             elif isinstance(st, ast.For):
+                broke = False
                 for item in self.ev(st.iter, loc):
                     self.bind(st.target, item, loc)
-                    self.exec_block(st.body, loc)
+                    try:
+                        self.exec_block(st.body, loc)
+                    except _Break:
+                        broke = True
+                        break
+                    except _Continue:
+                        continue
+                if not broke:
+                    self.exec_block(st.orelse, loc)
+            elif isinstance(st, ast.While):
+                broke = False
+                while self.ev(st.test, loc):
+                    self.steps += 1
+                    if self.steps > MAX_STEPS:
+                        raise Unfoldable("step budget exceeded")
+                    try:
+                        self.exec_block(st.body, loc)
+                    except _Break:
+                        broke = True
+                        break
+                    except _Continue:
+                        continue
+                if not broke:
+                    self.exec_block(st.orelse, loc)
+            elif isinstance(st, ast.Break):
+                raise _Break()
+            elif isinstance(st, ast.Continue):
+                raise _Continue()
             elif isinstance(st, ast.Expr):
                 if isinstance(st.value, ast.Constant):
                     continue
